@@ -1692,7 +1692,7 @@ fn soak(rounds: u64, millis: u64, readers: usize) -> i32 {
         }
         let _ = tx.send(tot);
     });
-    match rx.recv_timeout(std::time::Duration::from_millis(rounds * millis * 3 + 20_000)) {
+    match rx.recv_timeout(std::time::Duration::from_millis(rounds * millis * 5 + 120_000)) {
         Ok((c, rd, bad, rounds_bad)) => {
             println!("SOAK rounds={rounds} commits={c} reads={rd} incoherent_slots={bad} rounds_incoherent={rounds_bad} deadlock=0");
             if bad > 0 { 10 } else { 0 }
